@@ -15,7 +15,10 @@ CONSTANTS Tcp6Optimistic,  \* bytes ReadFull'ed after the identifier for TCP6 (t
 V4Lens == IF Full THEN 7..15 ELSE {7, 8, 11, 15}
 V6Lens == IF Full THEN 2..39 ELSE {2, 3, 4, 5, 15, 38, 39}
 PortLens == {1, 2, 5}
-Defects == {"none", "badproto", "badip", "badport", "missingfield", "nocrlf", "lfonly"}
+\* extranum / extratext: a fifth field after the destination port, a number / a word - more than the line should hold; a
+\* reader may refuse the line or take the four fields it knows (either), it must not fall over
+Defects == {"none", "badproto", "badip", "badport", "missingfield", "nocrlf", "lfonly", "extranum", "extratext"}
+Lenient == {"extranum", "extratext"}
 
 V1Tcp == [v : {1}, proto : {"TCP4"}, sl : V4Lens, dl : {7, 15}, sp : PortLens, dp : {1, 5}, tail : {0}, defect : {"none"}]
     \cup [v : {1}, proto : {"TCP6"}, sl : V6Lens, dl : {2, 39}, sp : PortLens, dp : {1, 5}, tail : {0}, defect : {"none"}]
@@ -43,7 +46,8 @@ L(d) == IF d.v = 2 THEN 16 + d.len
 \* addresses must be present (the socket's for an unspecified family) and the payload exact.
 Expect(d) ==
   IF d.v = 1 THEN
-     IF d.defect # "none" THEN "reject"
+     IF d.defect \in Lenient THEN "either"
+     ELSE IF d.defect # "none" THEN "reject"
      ELSE IF d.proto = "UNKNOWN" THEN "sock" ELSE "hdr"
   ELSE IF d.vn # 2 THEN "reject"
   ELSE IF d.len > 2048 THEN "either"                      \* above the implementation's documented limit
@@ -54,7 +58,7 @@ Expect(d) ==
          [] OTHER -> "either"                             \* AF_UNSPEC, AF_UNIX, unassigned
   ELSE "either"                                           \* unassigned command
 \* for "either": which address an accepting implementation has to report
-EitherAddr(d) == IF d.v = 2 /\ d.cmd = 1 /\ d.fam \in {17, 18, 33, 34} THEN "any" ELSE "sock"
+EitherAddr(d) == IF d.v = 1 \/ (d.v = 2 /\ d.cmd = 1 /\ d.fam \in {17, 18, 33, 34}) THEN "any" ELSE "sock"
 
 WellFormed(d) == Expect(d) \in {"hdr", "sock"}
 
